@@ -1,13 +1,18 @@
 /-
   Props/C16.lean — C16: a merged step is equivalent to the two steps it replaces.
-  (That the merged step *applies* whenever the pair does is decided by the correspondence run and the
-  failing-input search; the theorems are conditional on it.)  Helper lemmas: Proofs/Merge.lean.
+  `merge_equiv` is conditional on the merged step applying; that it *does* apply whenever the pair does is
+  proved for mark steps (`merge_succeeds_marks`), for flat replace steps in every schema
+  (`merge_succeeds_replace_flat`) and for replace steps with open slices over any ranges in schemas whose
+  `compatible_content` is transitive (`merge_succeeds_replace`; without that guard the statement is false,
+  `merge_needs_guard`).  Helper lemmas: Proofs/Merge.lean, Proofs/MarkMerge.lean, Proofs/FlatReplace.lean,
+  Proofs/MergeOpen.lean.
 -/
 import PM.Step
 import Proofs.StepToks
 import Proofs.Merge
 import Proofs.MarkMerge
 import Proofs.FlatReplace
+import Proofs.MergeOpen
 namespace PM.C16
 open PM
 
@@ -68,7 +73,7 @@ theorem merge_equiv (S : Schema) (s1 s2 m : Step) (d d1 d2 d' : Node)
   -- the original document is an element node, hence so are the results
   have hd : ∃ ty a mk k, d = .elem ty a mk k := by
     cases s1 <;> cases s2 <;> try (simp [Step.merge] at hm; done)
-    · exact fromReplace_elem S d d1 _ _ _ (apply_replace_from _ _ _ _ _ _ _ h1)
+    · exact fromReplace_isElem S d d1 _ _ _ (apply_replace_from _ _ _ _ _ _ _ h1)
     · exact apply_addMark_elem S d d1 _ _ _ h1
     · exact apply_removeMark_elem S d d1 _ _ _ h1
   obtain ⟨ty, a, mk, k, rfl⟩ := hd
@@ -182,21 +187,19 @@ theorem merge_equiv_marks (S : Schema) (hts : TextLoop S) (s1 s2 m : Step) (d d1
 
 /-! ## The merged step applies — replace steps, flat case (helper lemmas: Proofs/FlatReplace.lean)
 
-General statement (not proved):
+General statement:
 
     merge_succeeds_replace : s1 = .replace f t sl false → s2 = .replace f' t' sl' false →
-        S.apply s1 d = .ok d1 → S.apply s2 d1 = .ok d2 → s1.merge s2 = some m → ∃ d', S.apply m d = .ok d'
+        S.apply s1 d = .ok d1 → S.apply s2 d1 = .ok d2 → s1.merge s2 = some m → S.apply m d = .ok d2
 
-for a valid, normal-form `d` and normal-form slices.  Proved below for the *flat* case of both
-`merge` branches (the second step starts where the first one's content ends — typing, forward deleting,
-pasting in sequence — or ends where the first one starts — deleting backwards): both slices closed,
-both replaced ranges flat (`FlatRange`: the range ends at the
+It is proved further below (`merge_succeeds_replace`) for a valid, normal-form `d` and valid, normal-form
+slices under the schema guard `compatTransB`.  First the *flat* case of both `merge` branches (the second
+step starts where the first one's content ends — typing, forward deleting, pasting in sequence — or ends
+where the first one starts — deleting backwards), which needs neither validity of `d` nor any schema
+guard: both slices closed, both replaced ranges flat (`FlatRange`: the range ends at the
 depth it starts at and never rises above it — every range whose `Node.slice` is closed,
 `flatRange_of_closed`; every empty range, `flatRange_refl`).  There the merged step rebuilds one child
-list only, and it is token for token the list the second step built and validated; no validity
-hypothesis on `d` is needed.  Missing for the general case: the same comparison along the two spines of
-open slices (the merged step's `close` arguments are contents of nodes the two steps re-closed, but
-joined in a different order). -/
+list only, and it is token for token the list the second step built and validated. -/
 
 /-- **merged flat replace steps: the merged step applies and yields the pair's result** — both `merge`
     branches (the second step starts where the first one's content ends / ends where the first one starts) -/
@@ -294,5 +297,226 @@ example : tinyS.apply (.replace 2 2 ⟨[.text [120, 121] []], 0, 0⟩ false) e0 
     fwd1 fwd2 (flatRange_refl _ _) (flatRange_refl _ _) rfl
   simpa [Slice.size, fappend, addNode] using this
 end Example
+
+/-! ## The merged step applies — replace steps, slices open on their outer sides
+    (helper lemmas: Proofs/MergeOpen.lean, Proofs/SpineCongr.lean, Proofs/MergeRel.lean, Proofs/ReplaceAligned.lean)
+
+`Step.merge` joins two non-structure replace steps only when the seam between their slices is closed
+(`sl.openEnd = 0 ∧ sl'.openStart = 0`, resp. `sl.openStart = 0 ∧ sl'.openEnd = 0`); the outer sides
+(`sl.openStart`, `sl'.openEnd`, resp. `sl'.openStart`, `sl.openEnd`) may be open to any depth, and the
+replaced ranges may cross any node boundaries.
+
+Guards (all decidable, all explicit):
+* `compatTransB S`: `compatible_content` is transitive on the schema's node types.  The merged step joins
+  the right spine of the second slice with `to`'s ancestor in the *original* document; the pair joined
+  it with the node the first step had already merged that ancestor into — only the chain
+  `second-slice node ~ merged node ~ to's ancestor` was checked.  (`compatTransB` holds for the bundled
+  schemas; the harness evaluates it through the driver op `compatTrans`.)  The guard is needed for the
+  second `merge` branch (deleting backwards: `merge_needs_guard`); in the first branch one of the two
+  relations composed is the identity at every level, so the statement should hold there without it — not
+  proved (a search over merged pairs in a non-transitive schema found no failure in that branch).
+* the document is valid and in normal form, the two slices are in normal form and valid payloads
+  (`openValid`, C01);
+* `ha1`, `ha2`: the ends of the content each step inserted do not fall between the halves of a surrogate
+  pair of that step's result (Python strings cannot; same side condition as `C04.replace_undo`). -/
+
+/-- **a merged replace step applies whenever the two steps it replaces apply in sequence, and yields
+    the pair's result** — both `merge` branches, open slices, ranges across node boundaries -/
+theorem merge_succeeds_replace (S : Schema) (htr : compatTransB S = true) (d d1 d2 : Node)
+    (f t f' t' : Nat) (sl sl' : Slice) (m : Step)
+    (hv : S.checkNode d = true) (hn : fnorm d.kids = true)
+    (hsn : fnorm sl.content = true) (hsn' : fnorm sl'.content = true)
+    (hp : openValid S sl.openStart sl.openEnd sl.content = true)
+    (hp' : openValid S sl'.openStart sl'.openEnd sl'.content = true)
+    (h1 : S.apply (.replace f t sl false) d = .ok d1)
+    (h2 : S.apply (.replace f' t' sl' false) d1 = .ok d2)
+    (hm : (Step.replace f t sl false).merge (.replace f' t' sl' false) = some m)
+    (ha1 : alignedAt d1.kids f = true ∧ alignedAt d1.kids (f + sl.size.toNat) = true)
+    (ha2 : alignedAt d2.kids f' = true ∧ alignedAt d2.kids (f' + sl'.size.toNat) = true) :
+    S.apply m d = .ok d2 := by
+  obtain ⟨ty, at_, mk, K, K1, rfl, rfl, hr1⟩ := fromReplace_parts S d d1 f t _ (apply_replace_from _ _ _ _ _ _ _ h1)
+  obtain ⟨ty', at', mk', K1', K2, he, rfl, hr2⟩ :=
+    fromReplace_parts S _ d2 f' t' _ (apply_replace_from _ _ _ _ _ _ _ h2)
+  cases he
+  simp only [Node.kids] at hn ha1 ha2
+  simp only [checkNode_elem, Bool.and_eq_true] at hv
+  have htrP := compatTrans_of_B S htr
+  obtain ⟨_, _, hwf1⟩ := replaceKids_guards S ty K f t sl K1 hr1
+  obtain ⟨_, _, hwf2⟩ := replaceKids_guards S ty K1 f' t' sl' K2 hr2
+  obtain ⟨hl1, hs1⟩ := Slice.toks_length_of_wf hwf1
+  obtain ⟨hl2, hs2⟩ := Slice.toks_length_of_wf hwf2
+  obtain ⟨c, a, e⟩ := sl
+  obtain ⟨c', a', b⟩ := sl'
+  simp only at hsn hsn' hp hp'
+  have hw1 := hwf1
+  have hw2 := hwf2
+  simp only [Slice.wf, Bool.and_eq_true, decide_eq_true_eq] at hw1 hw2
+  simp only [Step.merge, Bool.or_self, Bool.false_eq_true, if_false] at hm
+  split at hm
+  · -- the second step starts where the first one's content ends
+    rename_i hc
+    simp only [Bool.and_eq_true, decide_eq_true_eq] at hc
+    obtain ⟨⟨hc1, rfl⟩, rfl⟩ := hc
+    simp only [Option.some.injEq] at hm
+    subst hm
+    have hf' : f' = f + (Slice.mk c a 0).toks.length := by omega
+    have hsl : (if (Slice.mk c a 0).size + (Slice.mk c' 0 b).size = 0 then Slice.empty
+        else ⟨fappend c c', a, b⟩) = ⟨fappend c c', a, b⟩ := by
+      split
+      · rename_i hz
+        have e1 : c = [] := sliceToks_empty_content c a 0 hsn hw1.1 hw1.2 (.inr rfl) (by omega)
+        have e2 : c' = [] := sliceToks_empty_content c' 0 b hsn' hw2.1 hw2.2 (.inl rfl) (by omega)
+        subst e1; subst e2
+        have : a = 0 := by simpa [spineL] using hw1.1
+        subst this
+        have : b = 0 := by simpa [spineR] using hw2.2
+        subst this
+        rfl
+      · rfl
+    have key := replaceKids_merge_open S htrP ty K K1 K2 f t f' t' c c' a b hv.1.1 hv.2 hn hsn hsn' hp hp'
+      hr1 hr2 hf' ha1.1 ⟨ha2.1, by rw [hl2]; exact ha2.2⟩
+    simp only [hsl, Schema.apply, Bool.false_eq_true, if_false, Schema.fromReplace, Schema.replace, key,
+      Except.map]
+  · split at hm
+    · -- the second step ends where the first one starts
+      rename_i hc
+      simp only [Bool.and_eq_true, decide_eq_true_eq] at hc
+      obtain ⟨⟨rfl, rfl⟩, rfl⟩ := hc
+      simp only [Option.some.injEq] at hm
+      subst hm
+      have hsl : (if (Slice.mk c 0 e).size + (Slice.mk c' a' 0).size = 0 then Slice.empty
+          else ⟨fappend c' c, a', e⟩) = ⟨fappend c' c, a', e⟩ := by
+        split
+        · rename_i hz
+          have e1 : c = [] := sliceToks_empty_content c 0 e hsn hw1.1 hw1.2 (.inl rfl) (by omega)
+          have e2 : c' = [] := sliceToks_empty_content c' a' 0 hsn' hw2.1 hw2.2 (.inr rfl) (by omega)
+          subst e1; subst e2
+          have : e = 0 := by simpa [spineR] using hw1.2
+          subst this
+          have : a' = 0 := by simpa [spineL] using hw2.1
+          subst this
+          rfl
+        · rfl
+      have key := replaceKids_merge_open_left S htrP ty K K1 K2 t' t f' c c' a' e hv.1.1 hv.2 hn hsn hsn'
+        hp hp' hr1 hr2 (by rw [hl1]; exact ha1.2) ⟨ha2.1, by rw [hl2]; exact ha2.2⟩
+      simp only [hsl, Schema.apply, Bool.false_eq_true, if_false, Schema.fromReplace, Schema.replace, key,
+        Except.map]
+    · simp at hm
+
+/-! Non-vacuity of `merge_succeeds_replace` with slices open on the outer sides and ranges across node
+    boundaries: in `doc(p("ab"), p("c"))` replace 2 … 4 (`b</p>`) by `p("x")` open on the left, giving
+    `doc(p("ax"), p("c"))`; then replace 4 … 5 (`<p>`) by `p("y")` open on the right, giving
+    `doc(p("ax"), p("yc"))`.  The merged step replaces 2 … 5 by `⟨[p("x"), p("y")], 1, 1⟩`. -/
+section ExampleOpen
+private def par (s : List Nat) : Node := .elem 1 [] [] [.text s []]
+private def o0 : Node := .elem 0 [] [] [par [97, 98], par [99]]
+private def o1 : Node := .elem 0 [] [] [par [97, 120], par [99]]
+private def o2 : Node := .elem 0 [] [] [par [97, 120], par [121, 99]]
+
+private theorem open1 : tinyS.apply (.replace 2 4 ⟨[par [120]], 1, 0⟩ false) o0 = .ok o1 := by
+  have hc : tinyS.compatibleContent 1 1 = true := by decide
+  have hv : tinyS.validContent 1 [Node.text [97, 120] []] = true := by decide
+  have hv0 : tinyS.validContent 0 [par [97, 120], par [99]] = true := by decide
+  simp [Schema.apply, Schema.fromReplace, Schema.replace, o0, o1, par, replaceKids, inRange, depthAt,
+    Slice.wf, spineL, spineR, outer, atLevel, threeWay, threeWay.rightJoinCheck, twoWay, splitRight,
+    rightJoin, middle, Schema.close, fromArray, addNodes, addNode, hc, hv, Except.map,
+    RSplit.rest, splitOk, isHigh, isLow] at hv0 ⊢
+  simp [hv0]
+
+private theorem open2 : tinyS.apply (.replace 4 5 ⟨[par [121]], 0, 1⟩ false) o1 = .ok o2 := by
+  have hc : tinyS.compatibleContent 1 1 = true := by decide
+  have hv : tinyS.validContent 1 [Node.text [121, 99] []] = true := by decide
+  have hv0 : tinyS.validContent 0 [par [97, 120], par [121, 99]] = true := by decide
+  simp [Schema.apply, Schema.fromReplace, Schema.replace, o1, o2, par, replaceKids, inRange, depthAt,
+    Slice.wf, spineL, spineR, outer, atLevel, threeWay, twoWay, splitRight,
+    rightJoin, middle, flatTail, Schema.close, fromArray, addNodes, addNode, hc, hv, Except.map,
+    RSplit.rest] at hv0 ⊢
+  simp [hv0]
+
+example : tinyS.apply (.replace 2 5 ⟨[par [120], par [121]], 1, 1⟩ false) o0 = .ok o2 := by
+  have := merge_succeeds_replace tinyS (by decide) o0 o1 o2 2 4 4 5 ⟨[par [120]], 1, 0⟩ ⟨[par [121]], 0, 1⟩ _
+    (by simp [o0, par, Schema.checkNode, Schema.checkKids]; decide)
+    (by simp [o0, par, Node.kids, fnorm, fnormKids, Node.norm, chainOk, adjOk])
+    (by simp [par, fnorm, fnormKids, Node.norm, chainOk])
+    (by simp [par, fnorm, fnormKids, Node.norm, chainOk])
+    (by simp [par, openValid, leftOpenValid, Schema.checkKids, Schema.checkNode]; decide)
+    (by simp [par, openValid, rightOpenValid, Schema.checkKids, Schema.checkNode]; decide)
+    open1 open2 rfl
+    (by simp [o1, par, Node.kids, Slice.size, alignedAt, splitOk, isHigh, isLow])
+    (by simp [o2, par, Node.kids, Slice.size, alignedAt, splitOk, isHigh, isLow])
+  simpa [Slice.size, fappend, addNode, par] using this
+end ExampleOpen
+
+/-! The guard `compatTransB` of `merge_succeeds_replace` cannot be dropped (second `merge` branch, deleting
+    backwards): a schema in which `compatible_content` is not transitive — `doc "(A|B|C)*"`, `A "p q*"`,
+    `B "q+"`, `C "(p|q)*"`, `p`, `q` leaves: `A ~ C` (both can start with `p`), `C ~ B` (`q`), but not
+    `A ~ B`.  In `doc(A(p, q), C(q), B(q, q))` delete 6 … 8 (joins `B` onto `C`), then 3 … 6 (joins the
+    result onto `A`): both apply; the merged step "delete 3 … 8" has to join `B` onto `A` and is refused.
+    The real code behaves the same (checked with a schema built from these expressions). -/
+section NeedsGuard
+private def nt (name : String) (leaf : Bool) (dfa : Array DfaState) : NodeType :=
+  { name := name, isText := false, isInline := false, isLeaf := leaf, isAtom := leaf,
+    inlineContent := false, isolating := false, defining := false, code := false,
+    dfa := dfa, markSet := some [], attrs := [] }
+
+private def brS : Schema :=
+  { nodes := #[
+      nt "doc" false #[⟨true, [(1, 0), (2, 0), (3, 0)]⟩],
+      nt "A" false #[⟨false, [(4, 1)]⟩, ⟨true, [(5, 1)]⟩],
+      nt "B" false #[⟨false, [(5, 1)]⟩, ⟨true, [(5, 1)]⟩],
+      nt "C" false #[⟨true, [(4, 0), (5, 0)]⟩],
+      nt "p" true #[⟨true, []⟩],
+      nt "q" true #[⟨true, []⟩],
+      { nt "text" true #[⟨true, []⟩] with isText := true, isInline := true }],
+    marks := #[], top := 0, textTy := 6 }
+
+private def lp : Node := .leaf 4 [] []
+private def lq : Node := .leaf 5 [] []
+private def g0 : Node := .elem 0 [] [] [.elem 1 [] [] [lp, lq], .elem 3 [] [] [lq], .elem 2 [] [] [lq, lq]]
+private def g1 : Node := .elem 0 [] [] [.elem 1 [] [] [lp, lq], .elem 3 [] [] [lq, lq, lq]]
+private def g2 : Node := .elem 0 [] [] [.elem 1 [] [] [lp, lq, lq, lq]]
+
+/-- both steps apply in sequence, they merge, and the merged step is refused -/
+theorem merge_needs_guard :
+    brS.checkNode g0 = true ∧ compatTransB brS = false ∧
+    brS.apply (.replace 6 8 Slice.empty false) g0 = .ok g1 ∧
+    brS.apply (.replace 3 6 Slice.empty false) g1 = .ok g2 ∧
+    (Step.replace 6 8 Slice.empty false).merge (.replace 3 6 Slice.empty false)
+      = some (.replace 3 8 Slice.empty false) ∧
+    brS.apply (.replace 3 8 Slice.empty false) g0 = .error .failed := by
+  have c32 : brS.compatibleContent 2 3 = true := by decide
+  have c13 : brS.compatibleContent 3 1 = true := by decide
+  have c12 : brS.compatibleContent 2 1 = false := by decide
+  have v3 : brS.validContent 3 [Node.leaf 5 [] [], Node.leaf 5 [] [], Node.leaf 5 [] []] = true := by decide
+  have v0 : brS.validContent 0 [Node.elem 1 [] [] [Node.leaf 4 [] [], Node.leaf 5 [] []],
+      Node.elem 3 [] [] [Node.leaf 5 [] [], Node.leaf 5 [] [], Node.leaf 5 [] []]] = true := by decide
+  have v1 : brS.validContent 1 [Node.leaf 4 [] [], Node.leaf 5 [] [], Node.leaf 5 [] [], Node.leaf 5 [] []]
+      = true := by decide
+  have v0' : brS.validContent 0 [Node.elem 1 [] [] [Node.leaf 4 [] [], Node.leaf 5 [] [], Node.leaf 5 [] [],
+      Node.leaf 5 [] []]] = true := by decide
+  have fa3 : fromArray [Node.leaf 5 [] [], Node.leaf 5 [] [], Node.leaf 5 [] []]
+      = [Node.leaf 5 [] [], Node.leaf 5 [] [], Node.leaf 5 [] []] := by rfl
+  have fa0 : fromArray [Node.elem 1 [] [] [Node.leaf 4 [] [], Node.leaf 5 [] []],
+        Node.elem 3 [] [] [Node.leaf 5 [] [], Node.leaf 5 [] [], Node.leaf 5 [] []]]
+      = [Node.elem 1 [] [] [Node.leaf 4 [] [], Node.leaf 5 [] []],
+        Node.elem 3 [] [] [Node.leaf 5 [] [], Node.leaf 5 [] [], Node.leaf 5 [] []]] := by rfl
+  have fa1 : fromArray [Node.leaf 4 [] [], Node.leaf 5 [] [], Node.leaf 5 [] [], Node.leaf 5 [] []]
+      = [Node.leaf 4 [] [], Node.leaf 5 [] [], Node.leaf 5 [] [], Node.leaf 5 [] []] := by rfl
+  have fa0' : fromArray [Node.elem 1 [] [] [Node.leaf 4 [] [], Node.leaf 5 [] [], Node.leaf 5 [] [],
+        Node.leaf 5 [] []]]
+      = [Node.elem 1 [] [] [Node.leaf 4 [] [], Node.leaf 5 [] [], Node.leaf 5 [] [], Node.leaf 5 [] []]] := by
+    rfl
+  refine ⟨?_, by decide, ?_, ?_, ?_, ?_⟩
+  · simp [g0, lp, lq, Schema.checkNode, Schema.checkKids]; decide
+  · simp [Schema.apply, Schema.fromReplace, Schema.replace, g0, g1, lp, lq, Slice.empty, replaceKids, inRange,
+      depthAt, Slice.wf, spineL, spineR, outer, atLevel, twoWay, splitRight, Schema.close, fa3, fa0, v3, v0,
+      c32, Except.map]
+  · simp [Schema.apply, Schema.fromReplace, Schema.replace, g1, g2, lp, lq, Slice.empty, replaceKids, inRange,
+      depthAt, Slice.wf, spineL, spineR, outer, atLevel, twoWay, splitRight, Schema.close, fa1, fa0', v1, v0',
+      c13, Except.map]
+  · simp [Step.merge, Slice.empty, Slice.size]
+  · simp [Schema.apply, Schema.fromReplace, Schema.replace, g0, lp, lq, Slice.empty, replaceKids, inRange,
+      depthAt, Slice.wf, spineL, spineR, outer, atLevel, twoWay, splitRight, c12, Except.map]
+end NeedsGuard
 
 end PM.C16
